@@ -64,16 +64,30 @@ PendC == IF mpend = MNoReq THEN {} ELSE {mpend.c}
 SU == MStreaming /\ mudp
 Worse(a, b) == IF a = "td" \/ b = "td" THEN "td" ELSE IF a = "err" \/ b = "err" THEN "err" ELSE "no"
 
-\* The request goes out on connection c, carrying the session's id (the first one creates
-\* the session).  st0 is ServerSession.State() at that moment.
-MReqBegin(c, m, st0) ==
+\* The request goes out on connection c.  sid: it carries the session's id.  It concerns the
+\* session when it carries the id, when it creates the session, or when the connection is
+\* already paired with the session (the id is optional then: SETUP after ANNOUNCE, whose
+\* answer does not carry it).  Anything else is a connection-level request (`foreign`).
+\* st0 is ServerSession.State() at that moment.
+MReqBegin(c, m, st0, sid) ==
   /\ mpend = MNoReq
   /\ c \notin gone
   /\ (Alive /\ ~mtorn) => st0 = mstate
-  /\ mpend' = [c |-> c, m |-> m, s0 |-> mstate]
-  /\ touch' = touch \cup {c}
+  /\ LET mine == sid \/ mopened = 0 \/ c \in touch IN
+     /\ mpend' = [c |-> c, m |-> IF mine THEN m ELSE "foreign", s0 |-> mstate]
+     /\ touch' = IF mine THEN touch \cup {c} ELSE touch
   /\ presumed' = "no"
   /\ UNCHANGED <<mstate, mudp, mopened, mclosed, hold, leaving, gone, mtorn, mcleanup>>
+
+\* the answer to a connection-level request: one response, nothing else is claimed
+MReqEndForeign(c, nresp, cseqOk, status) ==
+  /\ mpend # MNoReq /\ mpend.c = c /\ mpend.m = "foreign"
+  /\ nresp = 1 /\ cseqOk
+  /\ (presumed # "no") => status >= 400
+  /\ presumed' = "no"
+  /\ leaving' = IF status >= 400 THEN leaving \cup {c} ELSE leaving
+  /\ mpend' = MNoReq
+  /\ UNCHANGED <<mstate, mudp, mopened, mclosed, touch, hold, gone, mtorn, mcleanup>>
 
 \* The answer has been read.  The session may have ended in between only through this very
 \* TEARDOWN (see MSessClose), so the rules refer to the state when the request went out.
